@@ -97,13 +97,32 @@ def is_short_read(got, intact, exp, present):
 
 PERTURB = ['-1', '-2', '-3', '+1', '+2', '+3', '0', 'rest', 'rest+1',
            'rest+100', '1' + '0' * 20, 'neg1', 'negL', 'abc', '1.5', '1e3',
-           'x1', '00', 'L_']
+           'x1', '00', 'L_', 'L=', '3=8', 'boundaries']
 
 
-def perturbed_values(L, rest):
+def perturbed_values(L, rest, content=b''):
     out = []
 
     for p in PERTURB:
+        if p == 'boundaries':
+            # every length that ends the section after one of its own
+            # lines (what follows is then read as header lines)
+            pos = 0
+
+            for _ in range(12):
+                pos = content.find(b'\n', pos) + 1
+
+                if pos <= 0 or pos >= L:
+                    break
+
+                out.append(str(pos))
+
+            continue
+
+        if p == 'L=':
+            out.append(str(L) + '=')
+            continue
+
         if p in ('-1', '-2', '-3', '+1', '+2', '+3'):
             out.append(str(L + int(p)))
         elif p == 'rest':
@@ -138,7 +157,7 @@ def judge_perturbations(data, exp, intact, st, case):
         L = r['options']['length']
         rest = len(data) - cs      # bytes present after the header
 
-        for v in perturbed_values(L, rest):
+        for v in dict.fromkeys(perturbed_values(L, rest, data[cs:ce])):
             new_header = LENGTH_RE.sub(b'length=' + v.encode('ascii'),
                                        header, count=1)
             blob = data[:hs_] + new_header + data[cs:]
